@@ -208,7 +208,13 @@ class SimFile(io.BufferedIOBase):
 
     @property
     def raw(self):
-        raise io.UnsupportedOperation("SimFile has no raw")
+        # tempfile pokes at .raw to set a name; hand out the real one (reads of
+        # attributes only - writes through it would bypass the journal and be
+        # caught by the completeness assertion)
+        try:
+            return self._real.raw
+        except AttributeError:
+            raise AttributeError("raw") from None
 
 
 _WRITE_FLAGS = os.O_WRONLY | os.O_RDWR | os.O_CREAT | os.O_TRUNC | os.O_APPEND
@@ -274,8 +280,10 @@ class SimDisk:
     def _w_open(self, file, mode="r", buffering=-1, encoding=None, errors=None,
                 newline=None, closefd=True, opener=None):
         ro = _REAL["open"]
-        if not self._on() or opener is not None:
+        if not self._on():
             return ro(file, mode, buffering, encoding, errors, newline, closefd, opener)
+        if opener is not None:
+            return self._open_with_opener(file, mode, buffering, encoding, errors, newline, closefd, opener)
         append = False
         if isinstance(file, int):
             ent = self.fdmap.get(file)
@@ -320,6 +328,45 @@ class SimDisk:
         self.live[hid] = sf
         try:
             self.fdmap[real.fileno()] = (rel, append)
+        except Exception:
+            pass
+        if binary:
+            return sf
+        return io.TextIOWrapper(sf, encoding=encoding, errors=errors, newline=newline)
+
+    def _open_with_opener(self, file, mode, buffering, encoding, errors, newline, closefd, opener):
+        """open(..., opener=...) as tempfile.NamedTemporaryFile uses it: the
+        opener does the os.open (journalled by the os.open wrapper if it goes
+        through os), the file object is wrapped like any other."""
+        ro = _REAL["open"]
+        rel = None if isinstance(file, int) else self._rel(file)
+        writing = any(c in mode for c in "wax+")
+        if rel is None or not writing:
+            return ro(file, mode, buffering, encoding, errors, newline, closefd, opener)
+        binary = "b" in mode
+        bmode = mode.replace("t", "") + ("" if binary else "b")
+        existed = os.path.lexists(self._abs(rel))
+        n0 = len(self.journal)
+        real = ro(file, bmode, buffering if binary else -1, opener=opener)
+        ent = None
+        try:
+            ent = self.fdmap.get(real.fileno())
+        except Exception:
+            pass
+        if ent is not None:
+            # the opener went through os.open: that wrapper knows which file the
+            # descriptor really belongs to (tempfile passes the *directory* as
+            # the name and lets its opener pick the file)
+            rel = ent[0]
+        elif not any(op[0] == "CREATE" and op[1] == rel for op in self.journal[n0:]):
+            if not existed or "w" in mode:
+                self.journal.append(("CREATE", rel, existed and "w" in mode))
+        hid = self.next_hid
+        self.next_hid += 1
+        sf = SimFile(self, real, rel, hid, "a" in mode)
+        self.live[hid] = sf
+        try:
+            self.fdmap[real.fileno()] = (rel, "a" in mode)
         except Exception:
             pass
         if binary:
@@ -491,6 +538,24 @@ class SimDisk:
                     raise OSError(e.err, os.strerror(e.err)) from None
         return _REAL["os.stat"](path, dir_fd=dir_fd, follow_symlinks=follow_symlinks)
 
+    def _w_link(self, src, dst, *, src_dir_fd=None, dst_dir_fd=None, follow_symlinks=True):
+        real = _REAL["os.link"]
+        if not self._on():
+            return real(src, dst, src_dir_fd=src_dir_fd, dst_dir_fd=dst_dir_fd, follow_symlinks=follow_symlinks)
+        rs, rd = self._rel(src, src_dir_fd), self._rel(dst, dst_dir_fd)
+        if rs is None and rd is None:
+            return real(src, dst, src_dir_fd=src_dir_fd, dst_dir_fd=dst_dir_fd, follow_symlinks=follow_symlinks)
+        if rs is None or rd is None:
+            raise HarnessError("UNMODELLED-IO: hard link across the simulated disk boundary")
+        try:
+            self._hook("RENAME", rd, {"src": rs, "link": True})
+        except InjectIOError as e:
+            raise OSError(e.err, os.strerror(e.err)) from None
+        out = real(src, dst, src_dir_fd=src_dir_fd, dst_dir_fd=dst_dir_fd, follow_symlinks=follow_symlinks)
+        self.flush_live()
+        self.journal.append(("LINK", rs, rd))
+        return out
+
     def _w_unmodelled(self, name):
         real = _REAL[name]
 
@@ -521,7 +586,7 @@ class SimDisk:
         os.mkdir = self._w_mkdir
         os.rmdir = self._w_rmdir
         os.stat = self._w_stat
-        os.link = self._w_unmodelled("os.link")
+        os.link = self._w_link
         os.symlink = self._w_unmodelled("os.symlink")
         self.active = True
         self.snapshot_baseline()
@@ -589,6 +654,12 @@ class SimDisk:
             with _REAL["open"](p, "wb") as fh:
                 fh.write(bytes(data))
         self.epoch += 1
+        for sf in list(self.live.values()):
+            try:
+                sf._done = True
+                sf._real.close()
+            except Exception:
+                pass
         self.fdmap.clear()
         self.live.clear()
         self.pending = None
@@ -630,6 +701,12 @@ def _apply(files, dirs, op):
             dirs.add(rd)
             for f in [f for f in files if f.startswith(rs + "/")]:
                 files[rd + f[len(rs):]] = files.pop(f)
+    elif k == "LINK":
+        # a second name for the same bytes (later writes through one name only
+        # are not tracked to the other: links of finished files is what occurs)
+        _, rs, rd = op
+        if rs in files:
+            files[rd] = bytearray(files[rs])
     elif k == "UNLINK":
         files.pop(op[1], None)
     elif k == "MKDIR":
